@@ -281,7 +281,9 @@ econf_err econf_readFile(econf_file **key_file, const char *file_name,
 // Merge the contents of two key files
 econf_err econf_mergeFiles(econf_file **merged_file, econf_file *usr_file, econf_file *etc_file)
 {
-  if (merged_file == NULL || usr_file == NULL || etc_file == NULL) {
+  if (merged_file == NULL)
+    return ECONF_ERROR;
+  if (usr_file == NULL || etc_file == NULL) {
     *merged_file = NULL;
     return ECONF_ERROR;
   }
